@@ -468,3 +468,6 @@ impl<'a> IntoCowPath<'a> for &'a str {
 fn cursor_at_end<T: AsRef<[u8]>>(cursor: &Cursor<T>) -> bool {
     cursor.position() == (cursor.get_ref().as_ref().len() as u64)
 }
+
+#[cfg(kani)]
+include!(concat!(env!("ATTOHTTPC_VERIF_HARNESS"), "/multipart_lazy.rs"));
